@@ -44,22 +44,8 @@ def make_exc(kind):
             'SafetyViolation': m.SafetyViolation('injected')}[kind]
 
 
-_SCRATCH = {}
-
-
 def scratch_dir():
-    d = _SCRATCH.get('dir')
-    if d is None or _SCRATCH.get('pid') != os.getpid():
-        base = os.environ.get('VERIF_SCRATCH')
-        if base:
-            os.makedirs(base, exist_ok=True)
-        d = tempfile.mkdtemp(prefix='verif-c02-', dir=base or (
-            '/dev/shm' if os.path.isdir('/dev/shm') else None))
-        _SCRATCH['dir'] = d
-        _SCRATCH['pid'] = os.getpid()
-        import atexit
-        atexit.register(shutil.rmtree, d, True)
-    return d
+    return core.scratch_dir('c02')
 
 
 def lib_accepts(data, short=None):
